@@ -1697,6 +1697,9 @@ class Simulation:
     @layered.setter
     def layered(self, layered):
         """Update layered and therefore layered_opts."""
+        if layered != self._layered:
+            # Computed data belong to the other mode; remove them.
+            self.clean('computed')
         self._set_layered_opts(layered, self.layered_opts)
 
     def _set_layered_opts(self, layered, layered_opts):
